@@ -54,6 +54,20 @@ def tok_bytes(t):
     raise MachineryError("bad token %r" % (t,))
 
 
+def lex_tokens(prog):
+    """the lexical tokens of a program: an array contributes its brackets and its elements one by one, so that a
+    division of the content `at white space` can also fall inside a composite operand"""
+    out = []
+    for t in prog:
+        if t["t"] == "arr":
+            out.append(b"[")
+            out.extend(lex_tokens(t["a"]))
+            out.append(b"]")
+        else:
+            out.append(tok_bytes(t))
+    return out
+
+
 def prog_bytes(prog):
     return b" ".join(tok_bytes(t) for t in prog)
 
